@@ -658,7 +658,10 @@ def main(tier, seed):
               f"{len(contexts('x', None))} contexts for the "
               f"{len(OS_NATIVES)} OS-touching names) + "
               f"{len(FLAG_PROGRAMS)} ways of defining/assigning the secure "
-              f"flag, each followed by binding every OS-touching native; "
+              f"flag (plus one- and two-step compound assignments), each "
+              f"followed by binding every OS-touching native, each also "
+              f"run with a host-supplied environment ({', '.join(HOST_ENVS)}) "
+              f"passed to interpret(); "
               f"both base environments; after every program: BFS over the "
               f"reachable object graph, every function class not swept "
               f"before invoked with every argument tuple of arity <= "
